@@ -16,6 +16,7 @@ import (
 	"verif/props/coll"
 
 	"github.com/whatap/golib/verifshim/sched"
+	"github.com/whatap/golib/verifshim/vsync"
 )
 
 type scenario struct {
@@ -388,10 +389,106 @@ func runSelfDeadlock(c *evid.Ctx, dc dlCase) {
 	_ = res
 }
 
+// ---- whole-structure operations against a mutator ------------------------------------------------------------
+
+// wholeCases pairs every public method that is not a point operation (sort, key-array, to-array,
+// to-string, contains-value, enumerations ...) with one mutator of each kind on a small start state.
+func wholeCases(d *coll.Desc) []*scenario {
+	var out []*scenario
+	obj := d.New()
+	muts := pick(opsFor(d, 2, 1, mutators), 4)
+	pfs := prefills(d)
+	pf := pfs[len(pfs)-1]
+	if len(pfs) > 2 {
+		pf = pfs[2] // two entries
+	}
+	for _, m := range coll.ExportedMethods(obj) {
+		if pointOps[m.Name] || m.Name == "Get" && (d.Family == "queue" || d.Family == "dqueue") || m.Name == "ToObject" || m.Name == "ToBytes" {
+			continue // (the serialisation methods take a stream argument that one execution uses up)
+		}
+		sets := coll.ArgSets(d, obj, m, 2, 1)
+		if len(sets) == 0 {
+			continue
+		}
+		w := coll.MkOp(m.Name, sets[0]...)
+		for _, mu := range muts {
+			out = append(out, &scenario{desc: d, ctor: 0, prefill: pf, threads: [][]coll.Op{{mu}, {w}}})
+		}
+	}
+	return out
+}
+
+// runWhole: every schedule (preemption bound 2) of a mutator against a whole-structure operation: no
+// thread may end blocked on a lock of the structure (the property asks nothing else of these
+// operations under concurrency; enumerations are walked outside the lock by design).
+func runWhole(c *evid.Ctx, s *scenario) {
+	alone := ""
+	func() {
+		defer func() {
+			if r := recover(); r != nil {
+				alone = "panic"
+			}
+		}()
+		if blocked, _ := dfs.Solo(func() {
+			if r := coll.Apply(s.build(), s.threads[1][0]); strings.HasPrefix(r, "panic:") {
+				alone = "panic"
+			}
+		}, 200000); blocked {
+			alone = "blocked"
+		}
+	}()
+	if alone != "" {
+		return // judged by the self-deadlock pass / outside the property (ToString panics)
+	}
+	sc := func(x *sched.Exec) func() string {
+		obj := s.build()
+		res := make([]string, 2)
+		for ti := range s.threads {
+			ti := ti
+			x.Spawn(fmt.Sprintf("T%d", ti), func() {
+				x.Yield(sched.Op{Kind: "op:" + s.threads[ti][0].Label})
+				res[ti] = coll.Apply(obj, s.threads[ti][0])
+			})
+		}
+		return func() string {
+			if x.Deadlock {
+				for _, b := range x.Blocked {
+					if strings.HasSuffix(b, "lock") {
+						return "blocked-forever: " + strings.Join(x.Blocked, ",")
+					}
+				}
+			}
+			if x.HitStepCap {
+				return "livelock: step cap hit"
+			}
+			// what a whole-structure operation returns (or whether its unlocked walk trips over a
+			// concurrent change) is not defined by the property; only that it comes back
+			_ = res
+			return ""
+		}
+	}
+	vsync.YieldAfterLock = true // let the other thread run while a lock is held (see vsync)
+	st, viols, err := dfs.Explore(sc, dfs.Config{Preemptions: 2, Faults: 0, StepCap: 20000}, false)
+	vsync.YieldAfterLock = false
+	if err != nil {
+		c.Violation("C10:harness-error", err.Error()+" in "+s.String(), nil)
+		return
+	}
+	c.Count("whole_operation_scenarios", 1)
+	c.Count("states", int64(st.Executions))
+	c.Count("transitions", int64(st.Steps))
+	if len(viols) > 0 {
+		v := viols[0]
+		kind := strings.SplitN(v.Verdict, ":", 2)[0]
+		c.Violation(fmt.Sprintf("C10:%s.%s:%s", s.desc.Name, s.threads[1][0].Method, kind), fmt.Sprintf("%s — %s — schedule %v", s.String(), v.Verdict, v.Choices),
+			map[string]interface{}{"engine": "E1", "scenario": s.String(), "choices": v.Choices, "trace": v.Trace})
+	}
+}
+
 // ---- main ---------------------------------------------------------------------------------------
 
 type task struct {
-	kind string // "dl" | "lin"
+	kind string // "dl" | "lin" | "whole"
 	dl   dlCase
 	sc   *scenario
 	cfg  dfs.Config
@@ -402,6 +499,9 @@ func buildTasks(thorough bool) []task {
 	for _, d := range coll.Descs {
 		for _, dc := range selfDeadlockCases(d) {
 			tasks = append(tasks, task{kind: "dl", dl: dc})
+		}
+		for _, ws := range wholeCases(d) {
+			tasks = append(tasks, task{kind: "whole", sc: ws})
 		}
 		all := opsFor(d, 2, 1, nil)
 		muts := opsFor(d, 2, 1, mutators)
@@ -517,6 +617,8 @@ func Run(c *evid.Ctx) {
 			switch t.kind {
 			case "dl":
 				runSelfDeadlock(c, t.dl)
+			case "whole":
+				runWhole(c, t.sc)
 			case "lin":
 				st, v, outs, err := t.sc.check(t.cfg)
 				if err != nil {
